@@ -133,15 +133,13 @@ class cdata_richcompare(Contract):
         for k, nm in enumerate(('<', '<=', '==', '!=', '>', '>=')):
             out.append(("both pointer-like: a %s b exactly as their addresses" % nm,
                         z3.Implies(z3.And(vp, wp, c['op'] == k), c.result == z3.If(addr[k], t, f))))
-        def by_op(table):
-            r = f
-            for k in range(5, -1, -1):
-                r = z3.If(c['op'] == k, z3.If(table[k], t, f), r)
-            return r
-        out.append(("integer cdata against integer cdata: < <= == != > >= exactly as the Python values they convert to",
-                    z3.Implies(z3.And(vi, wi), c.result == by_op(OPS(vv, w_c, signed=True)))))
-        out.append(("integer cdata against a Python int: < <= == != > >= exactly as the Python value it converts to",
-                    z3.Implies(z3.And(vi, wint), c.result == by_op(OPS(vv, w_p, signed=True)))))
+        ic, ip = OPS(vv, w_c, signed=True), OPS(vv, w_p, signed=True)
+        for k, nm in enumerate(('<', '<=', '==', '!=', '>', '>=')):
+            # (one clause per operator: the six-way clause took 75-115 s of a 120 s budget)
+            out.append(("integer cdata against integer cdata: a %s b exactly as the Python values they convert to" % nm,
+                        z3.Implies(z3.And(vi, wi, c['op'] == k), c.result == z3.If(ic[k], t, f))))
+            out.append(("integer cdata against a Python int: a %s b exactly as the Python value it converts to" % nm,
+                        z3.Implies(z3.And(vi, wint, c['op'] == k), c.result == z3.If(ip[k], t, f))))
         out.append(('pointer-like against anything else: NotImplemented',
                     z3.Implies(z3.Xor(vp, wp), c.result == ni)))
         return out
